@@ -192,6 +192,45 @@ def confirm(tag, checks=None, tier=None):
     print(tag, "in /repo:", res, flush=True)
 
 
+def recheck(tag, checks=None, tiers=("quick",)):
+    """re-runs checks on a stored change in a fresh scratch worktree of /repo's HEAD (after a check was strengthened)"""
+    outdir = os.path.join(VERIF, "seeded", tag)
+    mp = os.path.join(outdir, "meta.json")
+    meta = json.load(open(mp))
+    wt = "/tmp/wt-rc-" + tag
+    sh(["git", "-C", "/repo", "worktree", "remove", "--force", wt])
+    rc, out = sh(["git", "-C", "/repo", "worktree", "add", "--detach", wt, "HEAD"])
+    if rc:
+        raise SystemExit(out)
+    try:
+        rc, out = sh(["git", "apply", os.path.join(outdir, "patch.diff")], cwd=wt)
+        if rc:
+            raise SystemExit("patch does not apply: " + out)
+        runs, caught = [], []
+        for c in (checks or [meta["property"]]):
+            for tier in tiers:
+                r = run_check(c, tier, wt, "rc" + tag)
+                runs.append(r)
+                print(tag, json.dumps(r)[:500], flush=True)
+                if r["exit"] == 1 and r["violation_lines"]:
+                    caught.append("%s (%s)" % (c, tier))
+                    break
+        hist = meta.get("earlier_evaluations", [])
+        if meta.get("checks_run"):
+            hist.append({"verif_commit": meta.get("verif_commit", "?"), "checks_run": [{k: r[k] for k in ("check", "tier", "exit", "violation_lines")}
+                                                                                    for r in meta["checks_run"]]})
+        meta["earlier_evaluations"] = hist
+        rc, head = sh(["git", "-C", VERIF, "rev-parse", "--short", "HEAD"])
+        meta["verif_commit"] = head.strip() + "+"
+        meta["checks_run"], meta["caught_by"] = runs, caught
+        json.dump(meta, open(mp, "w"), indent=1)
+        print(tag, "caught_by=%s" % caught, flush=True)
+    finally:
+        sh(["git", "-C", "/repo", "worktree", "remove", "--force", wt])
+        for d in ("/tmp/sb-rc" + tag, "/tmp/sw-rc" + tag, "/tmp/se-rc" + tag):
+            shutil.rmtree(d, ignore_errors=True)
+
+
 if __name__ == "__main__":
     a = sys.argv[1:]
     if a[0] == "eval":
@@ -207,5 +246,7 @@ if __name__ == "__main__":
                 note = rest[1]
             rest = rest[2:]
         evaluate(prop, label, wt, patch, demo, checks, tiers, note)
+    elif a[0] == "recheck":
+        recheck(a[1], a[2].split(",") if len(a) > 2 and a[2] != "-" else None, tuple(a[3].split(",")) if len(a) > 3 else ("quick",))
     elif a[0] == "confirm":
         confirm(a[1], a[2].split(",") if len(a) > 2 else None, a[3] if len(a) > 3 else None)
